@@ -1428,6 +1428,10 @@ def copy_loop_reads(ctx):
         rem = {y.id for y in ast.walk(lp.test) if isinstance(y, ast.Name)}
         for c in (x for x in ast.walk(lp) if isinstance(x, ast.Call) and isinstance(x.func, ast.Attribute) and x.func.attr in ("read", "readinto", "read1", "readinto1")):
             arg = c.args[0] if c.args else None
+            if isinstance(arg, ast.Name):
+                # the size bound to a local first (`want = min(CHUNK, remaining)`)
+                bs = [a.value for a in ast.walk(lp) if isinstance(a, ast.Assign) and any(isinstance(t, ast.Name) and t.id == arg.id for t in a.targets)]
+                arg = bs[0] if len(bs) == 1 else arg
             by_rem = by_const = False
             if c.func.attr.startswith("read") and not c.func.attr.startswith("readinto") and isinstance(arg, ast.Call) and dotted_of(arg.func) == "min" and len(arg.args) == 2:
                 names = [(a.id if isinstance(a, ast.Name) else a.attr if isinstance(a, ast.Attribute) else None) for a in arg.args]
